@@ -615,4 +615,9 @@ def rp_filters(draw, d, version):
                         if target and w.has_room(target, rc, x)]
                 f.resources[rc] = draw(st.sampled_from(good)) if good \
                     else draw(st.integers(1, 14))
+    positive = sorted({a for s_ in f.member_of for a in s_})
+    if version >= 32 and positive and draw(st.integers(0, 3)) == 0:
+        # an aggregate that a positive member_of of the same request asks
+        # for is also forbidden (legal; both conditions must hold)
+        f.forbidden_aggs.add(draw(st.sampled_from(positive)))
     return f
